@@ -7,7 +7,7 @@ CONSTANTS
   ModLocs = {}
   PVals = {1, 2}
   MVals = {}
-  OVals = {101}
+  OVals = {}
   WithDelSpace = FALSE
   OpenFindings = {}
   MaxOps = 99
